@@ -46,7 +46,11 @@ pub fn gen_case(seed: u64, hist: u64, p: &GenParams, plan: &str) -> HistCase {
     let mut r = Rng::new(seed);
     let cfg = genr::gen_config(&mut r, p);
     let mut g = Gen::new(r.next(), hist, p.clone());
-    let steps = g.history();
+    let mut steps = g.history();
+    if plan == "C16" {
+        let n = g.r.range(6, 16) as usize;
+        g.adversarial_burst(n, &mut steps);
+    }
     HistCase { seed, hist, cfg, steps, tags: g.tags.iter().map(|s| s.to_string()).collect(), plan: plan.to_string() }
 }
 
@@ -64,6 +68,8 @@ pub struct RunStats {
     pub journal_checks: u64,
     pub files_compared: u64,
     pub segments_checked: u64,
+    pub adversarial: u64,
+    pub adversarial_diverged: u64,
     pub kinds: std::collections::BTreeMap<String, u64>,
     pub reject_kinds: std::collections::BTreeMap<String, u64>,
 }
@@ -78,6 +84,8 @@ pub struct Runner<'a> {
     pub step_ix: usize,
     /// check state / reads / iteration after every op (C01)
     pub check_each: bool,
+    /// set when the rest of the history is no longer meaningful (not a violation)
+    pub stop: bool,
     inst: u32,
 }
 
@@ -91,7 +99,7 @@ impl<'a> Runner<'a> {
             Ok(s) => s,
             Err(o) => return Err(viol("C01", "open_empty_dir", format!("open of an empty directory: {}", o.brief()), case, 0)),
         };
-        Ok(Runner { case, st, m: Model::new(), j: RefJournal::new(&case.cfg), stats: RunStats::default(), r: Rng::new(case.seed ^ 0xabcdef), step_ix: 0, check_each: true, inst: 1 })
+        Ok(Runner { case, st, m: Model::new(), j: RefJournal::new(&case.cfg), stats: RunStats::default(), r: Rng::new(case.seed ^ 0xabcdef), step_ix: 0, check_each: true, stop: false, inst: 1 })
     }
 
     fn v(&self, prop: &str, sig: &str, text: String) -> Viol {
@@ -350,6 +358,53 @@ impl<'a> Runner<'a> {
                     }
                 }
             }
+            (op, Expect::Any) => {
+                // C16: every public call returns normally, whatever the arguments
+                let out = match op {
+                    Op::Read(a, b) => match self.st.read(*a, *b) {
+                        Outcome2::Ok(_) => Outcome::Ok(None),
+                        Outcome2::Err(e) => Outcome::Err(e),
+                        Outcome2::Panic(p) => Outcome::Panic(p),
+                    },
+                    Op::Misc(k) => self.st.misc(*k),
+                    Op::Flush { cb } => self.st.flush(*cb).1,
+                    w => self.st.write(w),
+                };
+                self.stats.adversarial += 1;
+                if let Outcome::Panic(p) = &out {
+                    let loc = p.rsplit(" @ ").next().unwrap_or("?").to_string();
+                    return Err(self.v("C16", &format!("panic:{}:{}", op.kind(), loc), format!("{} panicked: {}", op.brief(), p)));
+                }
+                if op.is_write() {
+                    let mut m2 = self.m.clone();
+                    let (recs, res) = Gen::apply_to_model(&mut m2, op);
+                    let prefix_applies = match &res {
+                        Ok(()) => out.is_ok(),
+                        Err((_, at)) => *at > 0 && out.is_err(),
+                    };
+                    if res.is_ok() != out.is_ok() {
+                        // specification and store disagree on an argument at the limits: not C16's
+                        // subject; stop here so that later calls are not aimed at a wrong state
+                        self.stats.adversarial_diverged += 1;
+                        self.stop = true;
+                    } else if res.is_ok() || prefix_applies {
+                        for r in &recs {
+                            self.m.apply(r);
+                            self.j.append(r, &self.m.st);
+                        }
+                    }
+                    if matches!(op, Op::UpdateState(_)) {
+                        self.stop = true;
+                    }
+                }
+                // reading everything back must not panic either
+                if !self.stop {
+                    if let Outcome2::Panic(p) = self.st.read_all() {
+                        let loc = p.rsplit(" @ ").next().unwrap_or("?").to_string();
+                        return Err(self.v("C16", &format!("panic:read_after_{}:{}", op.kind(), loc), format!("read(0,MAX) after {} panicked: {}", op.brief(), p)));
+                    }
+                }
+            }
             (Op::Flush { cb }, _) => {
                 let (_id, out) = self.st.flush(*cb);
                 if !out.is_ok() {
@@ -401,7 +456,7 @@ impl<'a> Runner<'a> {
             }
             _ => {}
         }
-        if self.check_each {
+        if self.check_each && !matches!(step.expect, Expect::Any) {
             // after a restart or a rejection the same oracle serves C02 / C06
             let prop = match (&step.op, &step.expect) {
                 (Op::Reopen(_), _) => "C02",
@@ -494,8 +549,11 @@ pub fn run_case(case: &HistCase, check_each: bool, final_restart: bool) -> (RunS
                     res = Some(v);
                     break;
                 }
+                if r.stop {
+                    break;
+                }
             }
-            if res.is_none() && final_restart {
+            if res.is_none() && final_restart && !r.stop {
                 // flush + restart at the end: the store must open and show the same state
                 r.step_ix = case.steps.len();
                 let fin = (|| -> Result<(), Viol> {
@@ -547,6 +605,12 @@ pub fn plan_for(prop: &str) -> SeqPlan {
             p.big_payloads = false;
             SeqPlan { params: p, check_each: true, final_restart: true, quick_histories: 50 }
         }
+        "C16" => {
+            p.min_ops = 0;
+            p.max_ops = 40;
+            p.big_payloads = false;
+            SeqPlan { params: p, check_each: false, final_restart: false, quick_histories: 150 }
+        }
         _ => {
             // C11
             p.sync_pm = 80;
@@ -570,6 +634,8 @@ fn add_stats(out: &mut ShardOut, s: &RunStats) {
     out.count("journal_checks", s.journal_checks);
     out.count("files_compared_bytewise", s.files_compared);
     out.count("returned_segments_checked", s.segments_checked);
+    out.count("adversarial_calls", s.adversarial);
+    out.count("adversarial_spec_store_disagree", s.adversarial_diverged);
     for (k, n) in &s.kinds {
         out.count(&format!("op:{}", k), *n);
     }
@@ -605,6 +671,7 @@ pub fn run_shard(ctx: &mut Ctx) {
             "C01" | "C11" => stats.rotations >= 1 && stats.records >= 5,
             "C02" => stats.restarts >= 1 && stats.records >= 5,
             "C06" => stats.rejections >= 1,
+            "C16" => stats.adversarial >= 3,
             _ => true,
         };
         if nontrivial && v.is_none() {
